@@ -700,7 +700,7 @@ func c18BinOnce(e *vh.Env, c c18Bin, o *vh.Out) bool {
 			o.Viol("C18|binary|exit-zero|"+c.Kind, fmt.Sprintf("%s: could not start but exited 0", ctx), nil)
 			return false
 		}
-		if !strings.Contains(out, "level") && !strings.Contains(strings.ToLower(out), "err") && !strings.Contains(strings.ToLower(out), "fail") {
+		if strings.TrimSpace(out) == "" { // how the message is worded or structured is not checked, only that there is one
 			o.Viol("C18|binary|no-message|"+c.Kind, fmt.Sprintf("%s: exited %d without a clear error message: %q", ctx, code, trunc(out, 200)), nil)
 			return false
 		}
